@@ -69,6 +69,16 @@ CLAIMS = {
              note="as C06.",
              tech="Coq proof: sortedness/permutation invariants of the count-ordered list, generic mix-in specifications; differential correspondence",
              ref="DESIGN.md §4 C07"),
+ "C09": dict(text="Coq theorems for all initial collections and all operation histories over numeric keys: construction from any values gives "
+             "the strictly ascending duplicate-free list (SortedSet) resp. dict(pairs) with later pairs winning (SortedMap); every "
+             "operation keeps strict order and changes membership / content exactly like set / dict (add, discard, remove, pop, clear, |=, "
+             "-=; get, set, del, in, get-default, pop, popitem, clear, update, setdefault); the ascending enumeration of a content is "
+             "unique; foreign probes report absent and never change the structure. Tied to /repo by comparing every result, the full "
+             "iteration and len after every operation of exhaustive small and random histories, with int / float / mixed keys.",
+             note="bisect_left is modelled as CPython's binary search; numeric keys are ints in the model (the implementation also gets equal "
+                  "floats); NaN keys and adding a foreign value to an empty SortedSet are outside the property's domain.",
+             tech="Coq proof: binary-search invariant, strict-sortedness invariant, refinement to membership predicate / finite map; differential correspondence",
+             ref="DESIGN.md §4 C09"),
 }
 ALL = ["C%02d" % i for i in range(1, 21)]
 def chk(pid, c):
